@@ -63,7 +63,8 @@ def check_string(acc, src, origin):
 
 
 def shards(tier):
-    out = [dict(s, kind='sigma') for s in strings.shards('mid' if tier == 'quick' else 'thorough')]
+    out = [{'kind': 'mixed'}]
+    out += [dict(s, kind='sigma') for s in strings.shards('mid' if tier == 'quick' else 'thorough')]
     plan = 'fault-quick' if tier == 'quick' else 'fault-thorough'
     out += [dict(s, kind='neigh', tier=tier) for s in layers.shards(plan, ())]
     out += [dict(s, kind='ws', tier=tier) for s in layers.shards(plan, ('args',))]
@@ -88,7 +89,10 @@ def ws_variants(text):
 def run_shard(shard):
     acc = Acc(make_classifier(ID, SIGNATURES))
     kind = shard['kind']
-    if kind == 'sigma':
+    if kind == 'mixed':
+        for s in layers.mixed_arg_strings():
+            check_string(acc, s, 'mixed-order arguments')
+    elif kind == 'sigma':
         for s in strings.iter_strings(shard):
             check_string(acc, s, 'sigma-' + shard['alpha'])
     elif kind == 'neigh':
